@@ -7,7 +7,8 @@
 * LineFault: `sys.settrace` exception injection at the n-th *first-visit* line event inside
   chosen functions of unit_scaling/transforms/utils.py.  Line events that re-visit a `with`
   header while the block is being left are excluded: an exception there pre-empts __exit__,
-  which only an asynchronous signal can do -- outside what the properties state.
+  which only an asynchronous signal can do -- outside what the properties state.  So are lines
+  whose bytecode is inert (`try:`).
 """
 
 from __future__ import annotations
@@ -71,6 +72,7 @@ class LineFault:
         self.site: Optional[Tuple[str, int]] = None
         self.seen: Set[Tuple[Any, int]] = set()  # holds the frames: ids stay unique
         self.sites_seen: List[Tuple[str, int]] = []
+        self._inert_lines: dict = {}
 
     def _global(self, frame: Any, event: str, arg: Any) -> Any:
         if event == "call":
@@ -79,10 +81,41 @@ class LineFault:
                 return self._local
         return None
 
+    def _inert(self, code: Any, lineno: int) -> bool:
+        """A line whose bytecode cannot raise (`try:` compiles to a NOP): an exception "at" it
+        would sit between two statements, which only an asynchronous signal can do."""
+        import dis
+
+        tab = self._inert_lines.get(code)
+        if tab is None:
+            ops: dict = {}
+            cur = None
+            for ins in dis.get_instructions(code):
+                if ins.starts_line is not None:
+                    cur = ins.starts_line
+                ops.setdefault(cur, set()).add(ins.opname)
+            tab = {ln for ln, names in ops.items() if names <= {"NOP"}}
+            # statements of `finally:` / `except` bodies are the recovery itself (the
+            # counterpart of a context manager's __exit__, which is never traced): a clean-up
+            # statement that fails is outside any recovery guarantee
+            try:
+                import ast
+
+                with open(code.co_filename) as f:
+                    tree = ast.parse(f.read())
+                for node in ast.walk(tree):
+                    if isinstance(node, ast.Try):
+                        for st in list(node.finalbody) + [b for h in node.handlers for b in h.body]:
+                            tab.update(range(st.lineno, (st.end_lineno or st.lineno) + 1))
+            except Exception:
+                pass
+            self._inert_lines[code] = tab
+        return lineno in tab
+
     def _local(self, frame: Any, event: str, arg: Any) -> Any:
         if event == "line":
             key = (frame, frame.f_lineno)
-            if key not in self.seen:
+            if key not in self.seen and not self._inert(frame.f_code, frame.f_lineno):
                 self.seen.add(key)
                 self.count += 1
                 self.sites_seen.append((frame.f_code.co_name, frame.f_lineno))
